@@ -277,9 +277,9 @@ class Zoo:
                 ("Sqrt(2)", g.Sqrt(2)), ("sqrt(0.5)", g.sqrt(0.5)),
                 ("Scalar(2, name='foo')", g.Scalar(2, name="foo"))]:
             add(lab, v)
-        add("Sqrt(2j)", g.Sqrt(2j), quarantine="dagger_not_involutive:gates.Scalar_drops_name",
+        add("Sqrt(2j)", g.Sqrt(2j), quarantine="dagger_not_involutive:gates.Sqrt_dagger_is_plain_scalar",
             qlaws=INVOLUTION_LAWS)
-        add("Sqrt(-2)", g.Sqrt(-2), quarantine="dagger_not_involutive:gates.Scalar_drops_name",
+        add("Sqrt(-2)", g.Sqrt(-2), quarantine="dagger_not_involutive:gates.Sqrt_dagger_is_plain_scalar",
             qlaws=INVOLUTION_LAWS)            # value 1.41j: conjugated since /repo 0c17137, as a plain Scalar
         add("Scalar(1j, name='foo')", g.Scalar(1j, name="foo"),
             quarantine="dagger_not_involutive:gates.Scalar_drops_name", qlaws=INVOLUTION_LAWS)
